@@ -2,10 +2,12 @@
 # usage: seedsweep_par.sh [workers]   — every kept seed against its property's quick check, in parallel:
 # each worker has its own copy of /verif and its own scratch worktree of /repo (VERIF_REPO), both under /var/tmp and
 # removed at the end.  Writes seeded/RESULTS.txt.  /repo and /verif themselves are not touched while it runs.
+# SEEDS="seeded/C01-9 …" restricts the sweep to those seeds and OUT=<file> redirects the result (for a new round).
 cd "$(dirname "$0")"
 N=${1:-5}
 ROOT=$(pwd)
-ls -d seeded/C*-* | sort > /var/tmp/sw.seeds
+OUT=${OUT:-seeded/RESULTS.txt}
+if [ -n "${SEEDS:-}" ]; then for d in $SEEDS; do echo $d; done > /var/tmp/sw.seeds; else ls -d seeded/C*-* | sort > /var/tmp/sw.seeds; fi
 i=0
 for k in $(seq 1 $N); do : > /var/tmp/sw.list.$k; done
 while read d; do k=$(( i % N + 1 )); echo "$d" >> /var/tmp/sw.list.$k; i=$((i+1)); done < /var/tmp/sw.seeds
@@ -30,7 +32,7 @@ for k in $(seq 1 $N); do
   ) &
 done
 wait
-cat /var/tmp/sw*/sw.out | sort > seeded/RESULTS.txt
+cat /var/tmp/sw*/sw.out | sort > $OUT
 for k in $(seq 1 $N); do git -C /repo worktree remove --force /var/tmp/swrepo$k 2>/dev/null; rm -rf /var/tmp/sw$k /var/tmp/swrepo$k /var/tmp/sw.list.$k; done
 git -C /repo worktree prune; rm -f /var/tmp/sw.seeds
-grep -c . seeded/RESULTS.txt; grep -v VIOLATION seeded/RESULTS.txt
+grep -c . $OUT; grep -v VIOLATION $OUT
